@@ -444,14 +444,26 @@ func genC11Store(r *rng, n int, w *bufio.Writer) {
 			}
 		}
 		shuffle(r, idxs)
-		if len(idxs) > 40 {
-			idxs = idxs[:40]
-		}
-		// what the lists will be asked to parse
 		byID := map[int]string{}
 		for _, l := range lists {
 			byID[l.id] = l.content
 		}
+		if len(idxs) > 40 {
+			// keep the indices of very long lines when the sample is cut
+			isHuge := func(idx int64) bool {
+				id, off := filterlist.VerifRuleListIdx(idx)
+				c, ok := byID[int(id)]
+				if !ok || off < 0 || int(off) >= len(c) {
+					return false
+				}
+				e := strings.IndexByte(c[off:], '\n')
+
+				return e < 0 && len(c)-int(off) > 60000 || e > 60000
+			}
+			sort.SliceStable(idxs, func(a, b int) bool { return isHuge(idxs[a]) && !isHuge(idxs[b]) })
+			idxs = idxs[:40]
+		}
+		// what the lists will be asked to parse
 		for _, idx := range idxs {
 			id, off := filterlist.VerifRuleListIdx(idx)
 			c, ok := byID[int(id)]
